@@ -186,7 +186,7 @@ static std::vector<wop> parse_script(std::string const &s)
 		wop o; o.op = t[0]; o.a = o.b = 0;
 		std::string rest = t.substr(1);
 		size_t dot = rest.find('.');
-		if (o.op == 'h' || o.op == 'c' || o.op == 't' || o.op == 'K' || o.op == 'T' || o.op == 'R') { o.s1 = unhex(dot == std::string::npos ? rest : rest.substr(0, dot)); if (dot != std::string::npos) o.s2 = unhex(rest.substr(dot + 1)); }
+		if (o.op == 'h' || o.op == 'c' || o.op == 't' || o.op == 'K' || o.op == 'T' || o.op == 'R' || o.op == 'G') { o.s1 = unhex(dot == std::string::npos ? rest : rest.substr(0, dot)); if (dot != std::string::npos) o.s2 = unhex(rest.substr(dot + 1)); }
 		else { o.a = atol(rest.c_str()); if (dot != std::string::npos) o.b = atol(rest.c_str() + dot + 1); }
 		v.push_back(o);
 	}
@@ -215,6 +215,7 @@ public:
 			case 't': rs.content_type(o.s1); break;
 			case 's': rs.status((int)o.a); break;
 			case 'K': if (cache().fetch_page(o.s1)) { ev("{\"ev\":\"cache_hit\",\"token\":" + jstr(st->token) + "}"); st->pos = st->ops.size(); return true; } st->store_key = o.s1; break;
+			case 'G': { std::string fr; if (!cache().fetch_frame(o.s1, fr)) { std::set<std::string> t; if (!o.s2.empty()) t.insert(o.s2); cache().store_frame(o.s1, "frame-content", t); ev("{\"ev\":\"frame_built\",\"token\":" + jstr(st->token) + "}"); } break; }
 			case 'T': cache().add_trigger(o.s1); break;
 			case 'R': cache().rise(o.s1); break;
 			case 'F':
